@@ -1,6 +1,8 @@
-(* From SOURCE TEXT to symbols: tapescript/parsing.py get_symbols, and compile_script as
-   get_symbols followed by assemble (model/Assembler.v).  Executable definitions only; theorems are in
-   proofs/TokenizerProofs.v.
+(* From SOURCE TEXT to symbols: tapescript/parsing.py get_symbols.  This file comes BEFORE
+   model/Assembler.v (macro invocations re-tokenise the instantiated template): it also holds the
+   result type [res], the character / string helpers and [norm_token]; compile_script
+   ([compile_text] = get_symbols then assemble_r) is defined at the end of model/Assembler.v.
+   Executable definitions only; theorems are in proofs/TokenizerProofs.v.
 
      def get_symbols(script):
          splits = [s for s in script.split()]; splits.reverse(); symbols = []
@@ -43,10 +45,86 @@
          helpers of the assembler ignore what follows the second quote). *)
 From Coq Require Import ZArith List Bool NArith String Ascii.
 From Coq.Strings Require Import Byte.
-From TS Require Import Bytes Codec Ops Names Asm Tables Assembler.
+From TS Require Import Bytes Asm.
 Import ListNotations.
 Local Open Scope string_scope.
 Local Open Scope list_scope.
+
+(* ---------- result type ---------- *)
+
+Inductive res (A : Type) : Type :=
+| Ok (a : A)
+| Err          (* the Python raises *)
+| Unm.         (* not modelled *)
+Arguments Ok {A} a.
+Arguments Err {A}.
+Arguments Unm {A}.
+
+Definition rbind {A B : Type} (r : res A) (f : A -> res B) : res B :=
+  match r with Ok a => f a | Err => Err | Unm => Unm end.
+Definition of_opt {A : Type} (o : option A) : res A :=
+  match o with Some a => Ok a | None => Err end.
+
+(* ---------- characters and strings (ASCII) ---------- *)
+
+Definition asc_between (lo hi : N) (c : ascii) : bool :=
+  let n := N_of_ascii c in (lo <=? n)%N && (n <=? hi)%N.
+Definition is_digit (c : ascii) : bool := asc_between 48 57 c.
+Definition is_upper (c : ascii) : bool := asc_between 65 90 c.
+Definition is_lower (c : ascii) : bool := asc_between 97 122 c.
+Definition is_alnum_c (c : ascii) : bool := is_digit c || is_upper c || is_lower c.
+Definition lower_c (c : ascii) : ascii :=
+  if is_upper c then ascii_of_N (N_of_ascii c + 32) else c.
+Definition upper_c (c : ascii) : ascii :=
+  if is_lower c then ascii_of_N (N_of_ascii c - 32) else c.
+
+Fixpoint smap (f : ascii -> ascii) (s : string) : string :=
+  match s with EmptyString => EmptyString | String c t => String (f c) (smap f t) end.
+Definition lower_s : string -> string := smap lower_c.
+Definition upper_s : string -> string := smap upper_c.
+
+Fixpoint sall (f : ascii -> bool) (s : string) : bool :=
+  match s with EmptyString => true | String c t => f c && sall f t end.
+Definition nonempty (s : string) : bool := match s with EmptyString => false | _ => true end.
+
+(* str.isnumeric / str.isalnum on ASCII strings *)
+Definition isnumeric (s : string) : bool := nonempty s && sall is_digit s.
+Definition isalnum (s : string) : bool := nonempty s && sall is_alnum_c s.
+(* printable ASCII without the space: the characters that can occur in a symbol outside s-values
+   (str.split() has removed every kind of whitespace) *)
+Definition plain_c (c : ascii) : bool := let n := N_of_ascii c in (32 <? n)%N && (n <? 128)%N.
+Definition is_ascii_s (s : string) : bool := sall plain_c s.
+
+Definition is_prefix (p s : string) : bool := String.prefix p s.
+Fixpoint sdrop (n : nat) (s : string) : string :=
+  match n, s with S k, String _ t => sdrop k t | _, _ => s end.
+
+
+Definition dquote : ascii := """"%char.
+Definition squote : ascii := "'"%char.
+
+(* ---------- the per-token casing rule of get_symbols (tokens that are not string literals) ----------
+     token[0] not in ('s','d','x','!','@')           -> upper
+     d and not token[1:].isnumeric()                 -> upper
+     x and not is_hex(token[1:])                     -> upper   (is_hex pads an odd length with a 0)
+     s and token[1] not a double or single quote     -> upper
+     else unchanged      ("@=" / "!=" also take the next token unchanged: not a per-token rule) *)
+Definition is_hex_s (s : string) : bool :=
+  sall (fun c => match unnib (lower_c c) with Some _ => true | None => false end) s.
+Definition norm_token (t : string) : string :=
+  match t with
+  | EmptyString => t
+  | String c r =>
+    if Ascii.eqb c "d" then (if isnumeric r then t else upper_s t)
+    else if Ascii.eqb c "x" then (if is_hex_s r then t else upper_s t)
+    else if Ascii.eqb c "s" then
+      match r with
+      | String q _ => if Ascii.eqb q dquote || Ascii.eqb q squote then t else upper_s t
+      | EmptyString => t       (* token[1]: IndexError in the Python; no such symbol is produced *)
+      end
+    else if Ascii.eqb c "!" || Ascii.eqb c "@" then t
+    else upper_s t
+  end.
 
 (* ---------- str.split() ---------- *)
 
@@ -125,7 +203,3 @@ Definition all_ascii (s : string) : bool := sall (fun c => (N_of_ascii c <? 128)
 Definition get_symbols (text : string) : res (list string) :=
   if all_ascii text then gs_loop GNormal (split_py text) else Unm.
 
-(* compile_script(script) = assemble(get_symbols(script), macros={}): assemble starts with
-   parse_comptime, which assemble_r treats as the identity / Unm *)
-Definition compile_text (fl2 : Z -> Z) (text : string) : res bytes :=
-  rbind (get_symbols text) (assemble_r fl2).
